@@ -66,6 +66,8 @@ func genC13(seed uint64, idx int, tier string) interface{} {
 		switch {
 		case r.Bool(pLong):
 			pl.Inputs = append(pl.Inputs, GenLongInput(ir, v))
+		case r.Bool(0.012): // a lot of inline style per document
+			pl.Inputs = append(pl.Inputs, GenStyleHeavy(ir, v))
 		case r.Bool(0.03): // hundreds of distinct keys: bounded caches overflow
 			pl.Inputs = append(pl.Inputs, GenManyDistinct(ir, v, fresh))
 		case r.Bool(0.15): // 1-4 KB: size-gated fast paths and pools
